@@ -1149,7 +1149,12 @@ def rope_eq(a, b):
             raise OutOfReach("equality of very long sequences")
         conj = [la == lb] if (na is None or nb is None) else []
         for i in range(n):
-            conj.append(rope_index_term(ra, i) == rope_index_term(rb, i))
+            try:
+                conj.append(rope_index_term(ra, i) == rope_index_term(rb, i))
+            except OutOfReach as e:
+                if "outside rope" in str(e):
+                    return False      # position i provably lies beyond one side: the lengths differ
+                raise
         return simp(z3.And(*conj)) if conj else True
     # both of symbolic length: same base, same start
     if (len(ca) == 1 and len(cb) == 1 and isinstance(ca[0], BS) and isinstance(cb[0], BS)
